@@ -51,7 +51,7 @@ class WarnHooks:
 
 def r1(model, rep):
     rel = model.rel("components")
-    fn = model.func("components", "_get_warns")
+    fn = model.norm_func("components", "_get_warns")       # items() loops as key loops, pure aliases written out
     where = "%s:%d" % (rel, fn.lineno)
     params = [a.arg for a in fn.args.args]
     if len(params) != 2:
